@@ -13,7 +13,7 @@ for d in sorted(glob.glob('/verif/seeded/*/')):
             if p and not p.startswith('#'):
                 what = re.sub(r'\s+', ' ', p)[:230]
                 break
-    det = ', '.join(m.get('detected_by', [])) or '**missed**'
+    det = ', '.join(m.get('detected_by', [])) or ('equivalent on the current tree' if m.get('equivalent_on_current_tree') else '**missed**')
     hist = m.get('history', '')
     rows.append('| %s | %s | %s | %s | %s |' % (m['name'], m['property'], ', '.join(os.path.basename(f) for f in m.get('changed_files', [])), what.replace('|', '/'), det + (' — ' + hist if hist else '')))
 print('| id | property | file | change (from the author\'s notes) | detected by (quick tier) |')
